@@ -693,7 +693,12 @@ fn run_group(edges: &[Value], out: &mut Vec<Value>, rng: &mut Rng, stats: &mut B
         let applied = match res {
             Ok(a) => a,
             Err(err) => {
-                out.push(json!({"type": "toolerror", "detail": err, "case": e}));
+                // an outstanding transaction the model expects is not there: legitimate-path drift
+                // (e.g. a keepalive re-routed the peer); only an unhandled packet is a machinery failure
+                let kind = if err.starts_with("no outstanding transaction") { "drift" } else { "toolerror" };
+                out.push(json!({"type": kind, "detail": err, "why": {"why": "act-not-applicable", "detail": err}, "rule": "EXT",
+                    "cfg": cfg, "pre": pre, "act": e["act"], "case": e}));
+                *stats.entry("skipped_edges".into()).or_default() += 1;
                 world.take().unwrap().stop();
                 continue;
             }
